@@ -311,17 +311,119 @@ def enum_item(rng, name):
             "variants": [{"name": v, "serde": []} for v in rng.sample(["Active", "Inactive", "InProgress", "Done", "A"], rng.randint(1, 3))]}
 
 
+# ---- names that are distinct but collide under a coarser key: equal ignoring ASCII case, equal after
+# stripping underscores / dashes, equal up to a trailing digit, one a prefix of the other. A sort or a map
+# keyed by such a key leaves the pair in hash order.
+TIE_FILES = ["src/m1.rs", "src/M1.rs", "src/m_1.rs", "src/m10.rs", "src/m1/inner.rs", "src/cmds/a1.rs", "src/cmds/A1.rs",
+             "src/cmds.rs", "src/sub/deep/m1.rs", "src/Sub/m1.rs"]
+TIE_FILE_PAIRS = [("src/m1.rs", "src/M1.rs"), ("src/m1.rs", "src/m_1.rs"), ("src/m1.rs", "src/m10.rs"), ("src/m1.rs", "src/m1/inner.rs"),
+                  ("src/cmds/a1.rs", "src/cmds/A1.rs"), ("src/cmds.rs", "src/cmds/a1.rs"), ("src/sub/deep/m1.rs", "src/Sub/m1.rs")]
+TIE_TYPES = [("SessionId", "SessionID"), ("IoError", "IOError"), ("Uuid", "UUID"), ("UserInfo", "User_Info"),
+             ("ApiKey", "APIKey"), ("Point", "Point2"), ("Rect", "Rectangle"), ("Entry", "Entry1"), ("HttpReply", "HTTPReply")]
+TIE_CMDS = [("load_it", "load_it2"), ("save_doc", "save_doc_as"), ("sign_in", "signin"), ("open_tab", "open_tab1"),
+            ("run", "run_all")]
+TIE_EVENTS = [("tock", "tock2"), ("done", "done-now"), ("stored", "stored_1"), ("step", "stepped")]
+TIE_FIELDS = [("value", "Value"), ("user_id", "userid"), ("name", "name2"), ("id", "id_"), ("kind", "kind_of")]
+
+
+def coarse_keys(n):
+    """the coarser keys under which two names may collide"""
+    low = n.lower()
+    flat = re.sub(r"[_\-/.:]", "", low)
+    return {"case:" + low, "flat:" + flat, "digit:" + re.sub(r"\d+$", "", flat)}
+
+
+def tie_pairs(names):
+    """number of unordered pairs of distinct names that collide under a coarser key or where one is a
+    prefix of the other"""
+    names = sorted(set(names))
+    n = 0
+    for i, a in enumerate(names):
+        for b in names[i + 1:]:
+            if coarse_keys(a) & coarse_keys(b) or a.lower().startswith(b.lower()) or b.lower().startswith(a.lower()):
+                n += 1
+    return n
+
+
+def tie_census(case):
+    """tie-prone pairs per namespace of a project case (goes into the evidence)"""
+    types, cmds, evs, fields = [], [], [], 0
+    for rel, its in case["files"].items():
+        for it in its:
+            if it["kind"] in ("struct", "enum") and is_serde(it):
+                types.append(it["name"])
+                fields += tie_pairs([f["name"] for f in it.get("fields", [])] + [v["name"] for v in it.get("variants", [])])
+            elif it["kind"] == "fn":
+                if is_command(it):
+                    cmds.append(it["name"])
+                evs += [e for e, _, _ in fn_events(it)]
+    return {"types": tie_pairs(types), "commands": tie_pairs(cmds), "events": tie_pairs(evs), "fields": fields,
+            "files": tie_pairs(list(case["files"]))}
+
+
+def add_ties(rng, items, files, cmd_files, names):
+    """Every project gets pairs of tie-prone names, the two members independent of each other (no
+    dependency between them) and both used: two or three type pairs (one of them held together by a
+    third struct, so that they also meet in one dependency set), a command pair, an event pair, a field
+    pair."""
+    app = {"name": "app", "ty": P("AppHandle", segs=["tauri"])}
+    tpairs = [p for p in rng.sample(TIE_TYPES, rng.randint(2, 3)) if p[0] not in names and p[1] not in names]
+    used = []
+    for k, (a, b) in enumerate(tpairs):
+        for n in (a, b):
+            fa, fb = rng.choice(TIE_FIELDS)
+            fields = [{"name": fa, "ty": projgen.gen_type(rng, 1), "serde": [], "validate": []},
+                      {"name": fb, "ty": projgen.gen_type(rng, 1), "serde": [], "validate": []}]
+            rng.shuffle(fields)
+            items[rng.choice(files)].append({"kind": "struct", "name": n, "derives": rng.choice(projgen.SERDE_DERIVES[:2]),
+                                             "serde": [], "fields": fields})
+        if k == 0:
+            items[rng.choice(files)].append({"kind": "struct", "name": "Holder%d" % rng.randint(0, 9),
+                                             "derives": ["Serialize", "Deserialize"], "serde": [],
+                                             "fields": [{"name": "first", "ty": P(b), "serde": [], "validate": []},
+                                                        {"name": "second", "ty": CONTEXTS[rng.choice(FIELD_CTX)](P(a)), "serde": [], "validate": []}]})
+            used.append(items)  # marker only
+    holder = [it["name"] for its in items.values() for it in its if it["kind"] == "struct" and it["name"].startswith("Holder")]
+    roots = [n for p in tpairs for n in p] + holder
+    (ca, cb) = rng.choice(TIE_CMDS)
+    (ea, eb) = rng.choice(TIE_EVENTS)
+    for c, e in ((ca, ea), (cb, eb)):
+        params = [dict(app)]
+        ret = None
+        for _ in range(rng.randint(1, 2)):
+            if roots:
+                params.append({"name": "p%d" % len(params), "ty": CONTEXTS[rng.choice(PARAM_CTX)](P(roots.pop(rng.randrange(len(roots)))))})
+        if roots and rng.random() < 0.7:
+            ret = P(roots.pop(rng.randrange(len(roots))))
+        items[rng.choice(cmd_files)].append({"kind": "fn", "name": c, "attrs": [["tauri", "command"]], "async": False, "vis": "pub",
+                                             "params": params, "ret": ret,
+                                             "body": [{"emit": e, "recv": "app", "payload": "()"}]})
+    if roots:       # whatever is left is used by one more command
+        items[rng.choice(cmd_files)].append({"kind": "fn", "name": "use_rest", "attrs": [["command"]], "async": False, "vis": "pub",
+                                             "params": [{"name": "r%d" % i, "ty": P(n)} for i, n in enumerate(roots)], "ret": None, "body": []})
+
+
 def gen_project(rng, shape=None):
     """shape: 'multi' (commands/events/types spread over all files), 'onefile' (a single file),
     'cmd1' (all commands and emit calls in one file, types elsewhere; chain-shaped type graph),
     'dup' (multi + one type name defined in two or three files)."""
     shape = shape or rng.choice(["multi", "multi", "multi", "cmd1", "cmd1", "cmd1", "onefile", "onefile", "dup", "dupev"])
     nfiles = 1 if shape == "onefile" else rng.randint(1, 4) if shape == "dupev" else rng.randint(2, 6)
-    files = ["src/lib.rs"] + ["src/m%d.rs" % k for k in range(1, nfiles)]
-    if nfiles > 2 and rng.random() < 0.5:
-        files[-1] = "src/sub/deep/m%d.rs" % (nfiles - 1)
-    if nfiles > 3 and rng.random() < 0.3:
-        files[1] = "src/cmds/a%d.rs" % rng.randint(1, 9)
+    if rng.random() < 0.25:
+        files = ["src/lib.rs"] + ["src/m%d.rs" % k for k in range(1, nfiles)]
+        if nfiles > 2 and rng.random() < 0.5:
+            files[-1] = "src/sub/deep/m%d.rs" % (nfiles - 1)
+        if nfiles > 3 and rng.random() < 0.3:
+            files[1] = "src/cmds/a%d.rs" % rng.randint(1, 9)
+    else:
+        # paths that collide under a coarser key (case, underscores, trailing digit, prefix, a directory
+        # named like a file stem: PathBuf order is component-wise, not string order)
+        pair = list(rng.choice(TIE_FILE_PAIRS)) if nfiles >= 3 else []
+        rest = [f for f in TIE_FILES if f not in pair]
+        files = ["src/lib.rs"] + pair + rng.sample(rest, nfiles - 1 - len(pair))
+        rng.shuffle(files)
+        files.remove("src/lib.rs")
+        files.insert(0, "src/lib.rs")
     items = {f: [] for f in files}
     ntypes = rng.randint(2, 8)
     names = rng.sample(TYPE_POOL, ntypes)
@@ -403,6 +505,7 @@ def gen_project(rng, shape=None):
         body.append({"emit": evnames.pop(), "recv": "app", "payload": pay})
         items[f].append({"kind": "fn", "name": fname, "attrs": [], "async": False, "vis": "pub",
                          "params": params, "ret": None, "body": body})
+    add_ties(rng, items, files, cmd_files, names)
     # decoys
     for n in rng.sample(["Hidden", "Internal", "Scratch", "PlainData"], rng.randint(0, 2)):
         f = rng.choice(files)
